@@ -179,11 +179,12 @@ Proof.
 Qed.
 (* ... FALSE for the CSV writer on a surrogate-escaped byte while the file is opened with the strict encoder:
    C20_csv_total_refuted in props/C20_findings.v *)
-(* ... and FALSE for all three on a surrogate that no handler encodes *)
+(* ... and FALSE for all three on a surrogate that no handler encodes (the text writer: in template mode;
+   repr() escapes such code points) *)
 Theorem C20_total_lone_surrogate_refuted :
-  let rs := [rec_with_s [55296] [39; 55296; 39]] in
-  csv_out gen_cfg no_opts rs = None /\ line_out gen_cfg no_opts rs = None
-  /\ utf8 (g_text_se gen_cfg) (rec_repr gen_cfg (hd (rec_with_s [] []) rs)) = None.
+  let r := rec_with_s [55296] (tx "'<escaped>'") in
+  csv_out gen_cfg no_opts [r] = None /\ line_out gen_cfg no_opts [r] = None
+  /\ text_line gen_cfg (Some (tx "{s}")) [] r = Ok [55296; LF] /\ utf8 (g_text_se gen_cfg) [55296; LF] = None.
 Proof. repeat split; reflexivity. Qed.
 
 (* ---------------------------------------------------------------------------------------------- *)
